@@ -2,7 +2,8 @@
 
 1. TLC enumerates the input pool specified in ParseInv.tla: every string of lexical atoms of length
    <= 3 over the full alphabet (thorough: also length <= 4 over the core alphabet); every single
-   token-level mutation of the seed files (thorough: plus fixed-seed double mutations); mutation
+   token-level mutation of the seed files (thorough: plus all double insertions of state-changing atoms at
+   neighbouring positions); mutation
    descriptors applied to every .sw file of the repository.
 2. vh-parse renders each input, calls lex, lex_commented and parse_file under catch_unwind in
    watchdog-guarded child processes (abort / timeout are data) and emits one aggregated event.
@@ -74,10 +75,10 @@ def build_jobs(ctx):
     if ctx.quick:
         muts = slice_for_seed(muts, ctx.seed, 40000)
     else:
-        g2 = ctx.tlc("MC_ParseInv", "Gen_Mut2", workers=1, env={"SEEDS": sm}, simulate=10000, depth=3,
-                     tlc_seed=16, count=False, name="GenMut2", xmx="6g", timeout=3000)
+        g2 = ctx.tlc("MC_ParseInv", "Gen_Mut2", workers=1, env={"SEEDS": sm}, count=True, name="GenMut2",
+                     xmx="6g", timeout=3000)
         m2 = [parse_seq("<<" + x + ">>") for x in tlc_lines(g2, "M")]
-        pool["double_mutations_sampled"] = len(m2)
+        pool["double_mutations_enumerated"] = len(m2)
         muts += m2
     pool["seed_mutations_run"] = len(muts)
     for sd, ops in muts:
